@@ -134,14 +134,15 @@ Ltac inv_ret H := first [discriminate H | injection H as H; subst].
 
 Section Main.
   Variable negpow : bool.
+  Variable rk : rank_oracle.
   Variable inv : inv_oracle.
   Variable spow : spow_oracle.
 
-  Local Notation bop := (py_binop negpow inv spow).
+  Local Notation bop := (py_binop negpow rk inv spow).
 
   (* T1: whenever an operator returns, it returns the value linear algebra gives *)
   Theorem operator_sound : forall op a b r,
-    proper a -> proper b -> bop op a b = Ret r -> la_value negpow inv spow op a b r.
+    proper a -> proper b -> bop op a b = Ret r -> la_value negpow rk inv spow op a b r.
   Proof.
     intros op a b r Ha Hb H.
     destruct a as [ka ca | ka sha da]; destruct b as [kb cb | kb shb db].
@@ -165,12 +166,13 @@ Section Main.
         destruct (Nat.eqb m n) eqn:Emn; try discriminate. apply Nat.eqb_eq in Emn. subst n.
         destruct (integer_like kb cb) eqn:Eil; try discriminate.
         destruct ((exponent_Z cb <? 0)%Z && negb negpow) eqn:Eneg; try discriminate.
+        destruct ((exponent_Z cb <? 0)%Z && rk ka m da) eqn:Erk; try discriminate.
         unfold matrix_power in H. destruct (0 <=? exponent_Z cb)%Z eqn:Ez.
         * inv_ret H. apply LA_pow_nonneg; auto. apply Z.leb_le. exact Ez.
         * apply Z.leb_gt in Ez. destruct (inv ka m da) as [b|] eqn:Einv; inv_ret H.
-          apply LA_pow_neg; auto.
           assert ((exponent_Z cb <? 0)%Z = true) as L by (apply Z.ltb_lt; exact Ez).
-          rewrite L in Eneg. simpl in Eneg. destruct negpow; auto; discriminate.
+          rewrite L in Eneg, Erk. simpl in Eneg, Erk.
+          apply LA_pow_neg; auto. destruct negpow; auto; discriminate.
     - destruct Ha as [Hla Hpa]. destruct Hb as [Hlb Hpb].
       pose proof (proper_not_numberlike _ Hpa) as Hna. pose proof (proper_not_numberlike _ Hpb) as Hnb.
       destruct op; simpl in H.
@@ -305,6 +307,7 @@ Section Main.
         * assert ((exponent_Z cb <? 0)%Z = false) as L by (apply Z.ltb_ge; apply Z.leb_le; exact Ez).
           rewrite L. simpl. left; eexists; reflexivity.
         * destruct negpow; [| discriminate]. rewrite andb_false_r.
+          destruct ((exponent_Z cb <? 0)%Z && rk ka n da); [right; right; auto |].
           destruct (inv ka n da); [left; eexists; reflexivity | right; right; auto].
     - destruct Ha as [Hla Hpa]. destruct Hb as [Hlb Hpb].
       pose proof (proper_not_numberlike _ Hpa) as Hna. pose proof (proper_not_numberlike _ Hpb) as Hnb.
@@ -423,7 +426,7 @@ Section Main.
   Qed.
 
   (* in-place and reflected forms are the plain operators *)
-  Theorem inplace_is_plain : forall op a b, py_inplace negpow inv spow op a b = bop op a b.
+  Theorem inplace_is_plain : forall op a b, py_inplace negpow rk inv spow op a b = bop op a b.
   Proof. reflexivity. Qed.
   Theorem radd_is_add : forall ks c ka sh d, bop Add (Num ks c) (Arr ka sh d) = bop Add (Arr ka sh d) (Num ks c).
   Proof. reflexivity. Qed.
@@ -443,8 +446,8 @@ Section Main.
 
   Theorem eval_sum_sound : forall rest first r,
     proper first -> Forall (fun p => proper (snd p)) rest ->
-    eval_sum negpow inv spow first rest = Ret r ->
-    la_chain negpow inv spow Add Sub first rest r /\ proper r.
+    eval_sum negpow rk inv spow first rest = Ret r ->
+    la_chain negpow rk inv spow Add Sub first rest r /\ proper r.
   Proof.
     induction rest as [|[o v] rest IH]; intros first r Hf Hr H; simpl in H.
     - inv_ret H. split; [constructor | exact Hf].
@@ -463,8 +466,8 @@ Section Main.
   (* eval_product: every step is a linear-algebra product / division; the flag only ever adds refusals *)
   Lemma product_loop_sound : forall rest first flag r,
     proper first -> Forall (fun p => proper (snd p)) rest ->
-    product_loop negpow inv spow first flag rest = Ret r ->
-    la_chain negpow inv spow Mul Div first rest r /\ proper r.
+    product_loop negpow rk inv spow first flag rest = Ret r ->
+    la_chain negpow rk inv spow Mul Div first rest r /\ proper r.
   Proof.
     induction rest as [|[o v] rest IH]; intros first flag r Hf Hr H; simpl in H.
     - inv_ret H. split; [constructor | exact Hf].
@@ -482,8 +485,8 @@ Section Main.
   Qed.
   Theorem eval_product_sound : forall rest first r,
     proper first -> Forall (fun p => proper (snd p)) rest ->
-    eval_product negpow inv spow first rest = Ret r ->
-    la_chain negpow inv spow Mul Div first rest r /\ proper r.
+    eval_product negpow rk inv spow first rest = Ret r ->
+    la_chain negpow rk inv spow Mul Div first rest r /\ proper r.
   Proof. intros. eapply product_loop_sound; eauto. Qed.
 
   (* ---------------------------------------------------------------- triple vector products *)
@@ -509,7 +512,7 @@ Section Main.
   Lemma product_loop_refuses : forall rest result flag,
     scalar_or_vector result -> Forall (fun p => scalar_or_vector (snd p)) rest ->
     (needed flag result <= mul_vectors rest)%nat ->
-    eval_error (product_loop negpow inv spow result flag rest).
+    eval_error (product_loop negpow rk inv spow result flag rest).
   Proof.
     induction rest as [|[o value] rest IH]; intros result flag Hres Hrest Hcount.
     - unfold needed, mul_vectors in Hcount. simpl in Hcount. destruct flag; [lia|]. destruct (is_vector result); lia.
@@ -544,7 +547,7 @@ Section Main.
   Theorem triple_vector_refused : forall first rest,
     scalar_or_vector first -> Forall (fun p => scalar_or_vector (snd p)) rest ->
     (3 <= count_mul_vectors first rest)%nat ->
-    eval_error (eval_product negpow inv spow first rest).
+    eval_error (eval_product negpow rk inv spow first rest).
   Proof.
     intros first rest Hf Hr Hc. unfold eval_product. apply product_loop_refuses; auto.
     unfold count_mul_vectors in Hc. unfold needed, mul_vectors. destruct (is_vector first); lia.
@@ -757,14 +760,14 @@ Qed.
 
 Section Inverse.
   Variable negpow : bool.
+  Variable rk : rank_oracle.
   Variable inv : inv_oracle.
   Variable spow : spow_oracle.
-  Hypothesis inv_ok : inv_sound inv.
 
-  (* a sound inverse oracle refuses every matrix that has a nonzero kernel vector *)
-  Lemma sound_oracle_refuses_singular : forall k n d, has_kernel_vector n d -> inv k n d = None.
+  (* an inverse oracle whose every answer is a true inverse refuses every matrix that has a nonzero kernel vector *)
+  Lemma sound_oracle_refuses_singular : inv_sound inv -> forall k n d, has_kernel_vector n d -> inv k n d = None.
   Proof.
-    intros k n d [x [Hlx [Hnz Hker]]]. destruct (inv k n d) as [b|] eqn:E; [|reflexivity]. exfalso.
+    intros inv_ok k n d [x [Hlx [Hnz Hker]]]. destruct (inv k n d) as [b|] eqn:E; [|reflexivity]. exfalso.
     destruct (inv_ok _ _ _ _ E) as [_ [_ Hleft]].
     apply Exists_exists in Hnz. destruct Hnz as [c [Hin Hc]].
     destruct (In_nth _ _ c0 Hin) as [i [Hi Hnth]].
@@ -772,26 +775,32 @@ Section Inverse.
     apply ceq_zero in Z. unfold ent in Z. rewrite Hnth in Z. congruence.
   Qed.
 
-  (* negative integer powers of a square matrix: the power of the inverse, or the singular-matrix error *)
-  Theorem negative_power_spec : forall ka n d ke e,
+  (* negative integer powers of a square matrix: the power of the inverse (of a matrix the rank test let through),
+     or the singular-matrix error *)
+  Theorem negative_power_spec : inv_sound_regular rk inv -> forall ka n d ke e,
     negpow = true -> proper (Arr ka [n; n] d) -> integer_like ke e = true -> (exponent_Z e < 0)%Z ->
-    (exists b, py_binop negpow inv spow Pow (Arr ka [n; n] d) (Num ke e)
+    (exists b, rk ka n d = false /\
+               py_binop negpow rk inv spow Pow (Arr ka [n; n] d) (Num ke e)
                = Ret (Arr (kmax KFloat ka) [n; n] (mpow n b (Z.to_nat (- exponent_Z e))))
                /\ data_eq (matmat n n n d b) (identity n) /\ data_eq (matmat n n n b d) (identity n))
-    \/ py_binop negpow inv spow Pow (Arr ka [n; n] d) (Num ke e) = Raise ESingular.
+    \/ py_binop negpow rk inv spow Pow (Arr ka [n; n] d) (Num ke e) = Raise ESingular.
   Proof.
-    intros ka n d ke e Hon [Hl Hp] Hil Hneg. simpl. unfold pow_arr.
+    intros inv_ok ka n d ke e Hon [Hl Hp] Hil Hneg. simpl. unfold pow_arr.
     rewrite (proper_not_numberlike _ Hp), Nat.eqb_refl, Hil, Hon. rewrite andb_false_r.
+    assert ((exponent_Z e <? 0)%Z = true) as Lt by (apply Z.ltb_lt; exact Hneg). rewrite Lt. simpl.
+    destruct (rk ka n d) eqn:Erk; [right; reflexivity|].
     unfold matrix_power. assert ((0 <=? exponent_Z e)%Z = false) as L by (apply Z.leb_gt; exact Hneg). rewrite L.
     destruct (inv ka n d) as [b|] eqn:E; [left | right; reflexivity].
-    exists b. destruct (inv_ok _ _ _ _ E) as [_ [H1 H2]]. auto.
+    exists b. destruct (inv_ok _ _ _ _ Erk E) as [_ [H1 H2]]. auto.
   Qed.
 
-  Theorem singular_negative_power_error : forall ka n d ke e,
+  (* the repaired code: a matrix with a nonzero kernel vector raised to a negative power is always a student-facing
+     error, whatever np.linalg.inv would have answered -- it is never asked *)
+  Theorem singular_negative_power_error : rank_complete rk -> forall ka n d ke e,
     proper (Arr ka [n; n] d) -> has_kernel_vector n d -> cre e < 0 ->
-    is_student_error (py_binop negpow inv spow Pow (Arr ka [n; n] d) (Num ke e)).
+    is_student_error (py_binop negpow rk inv spow Pow (Arr ka [n; n] d) (Num ke e)).
   Proof.
-    intros ka n d ke e [Hl Hp] Hk Hneg. unfold is_student_error. simpl. unfold pow_arr.
+    intros rk_ok ka n d ke e [Hl Hp] Hk Hneg. unfold is_student_error. simpl. unfold pow_arr.
     rewrite (proper_not_numberlike _ Hp), Nat.eqb_refl.
     destruct (integer_like ke e); [| eexists; split; reflexivity].
     assert ((exponent_Z e <? 0)%Z = true) as L.
@@ -799,8 +808,7 @@ Section Inverse.
       assert (Qred (cre e) < 0) as Q by (rewrite Qred_correct; exact Hneg).
       unfold Qlt in Q. simpl in Q. lia. }
     rewrite L. destruct negpow; simpl; [| eexists; split; reflexivity].
-    unfold matrix_power. assert ((0 <=? exponent_Z e)%Z = false) as L' by (apply Z.leb_gt; apply Z.ltb_lt; exact L).
-    rewrite L', (sound_oracle_refuses_singular ka n d Hk). eexists; split; reflexivity.
+    rewrite (rk_ok ka n d Hk). eexists; split; reflexivity.
   Qed.
 End Inverse.
 
@@ -823,22 +831,32 @@ Proof.
   - intro i. rewrite map_length, seq_length. reflexivity.
 Qed.
 
+(* the exact oracles satisfy both contracts, so the hypotheses of the negative-power theorems are satisfiable *)
+Theorem exact_rank_complete : rank_complete exact_rank_deficient.
+Proof.
+  intros k n d H. unfold exact_rank_deficient.
+  rewrite (sound_oracle_refuses_singular exact_inv exact_inv_sound k n d H). reflexivity.
+Qed.
+Theorem exact_inv_sound_regular : inv_sound_regular exact_rank_deficient exact_inv.
+Proof. intros k n d b _ H. exact (exact_inv_sound k n d b H). Qed.
+
 (* ------------------------------------------------------------------ restatements used verbatim by Props/C14.v *)
 Lemma elementwise_entry : forall (f : C -> C -> C) l1 l2 i, (i < length l1)%nat -> (i < length l2)%nat ->
   nth i (map2 f l1 l2) c0 = f (nth i l1 c0) (nth i l2 c0).
 Proof. intros. apply map2_nth; assumption. Qed.
 Lemma power_unfolds : forall n d k, mpow n d 0 = identity n /\ mpow n d (S k) = matmat n n n d (mpow n d k).
 Proof. intros. split; reflexivity. Qed.
-Lemma negative_power_disabled_error' : forall inv spow a ke e,
-  proper a -> is_arr a -> cre e < 0 -> is_student_error (py_binop false inv spow Pow a (Num ke e)).
+Lemma negative_power_disabled_error' : forall rk inv spow a ke e,
+  proper a -> is_arr a -> cre e < 0 -> is_student_error (py_binop false rk inv spow Pow a (Num ke e)).
 Proof. intros. apply negative_power_disabled_error; auto. Qed.
-Lemma negative_power_partial : forall inv spow, inv_sound inv -> forall ka n d ke e,
+Lemma negative_power_inverse : forall rk inv spow, inv_sound_regular rk inv -> forall ka n d ke e,
   proper (Arr ka [n; n] d) -> integer_like ke e = true -> (exponent_Z e < 0)%Z ->
-  (exists b, py_binop true inv spow Pow (Arr ka [n; n] d) (Num ke e)
+  (exists b, rk ka n d = false /\
+             py_binop true rk inv spow Pow (Arr ka [n; n] d) (Num ke e)
              = Ret (Arr (kmax KFloat ka) [n; n] (mpow n b (Z.to_nat (- exponent_Z e))))
              /\ data_eq (matmat n n n d b) (identity n) /\ data_eq (matmat n n n b d) (identity n))
-  \/ py_binop true inv spow Pow (Arr ka [n; n] d) (Num ke e) = Raise ESingular.
-Proof. intros inv spow H ka n d ke e. apply (negative_power_spec true inv spow H). reflexivity. Qed.
+  \/ py_binop true rk inv spow Pow (Arr ka [n; n] d) (Num ke e) = Raise ESingular.
+Proof. intros rk inv spow H ka n d ke e. apply (negative_power_spec true rk inv spow H). reflexivity. Qed.
 
 (* ------------------------------------------------------------------ witnesses and examples *)
 (* np.linalg.inv([[3,3],[5,5]]) as observed on the implementation (exact doubles) *)
@@ -850,58 +868,61 @@ Definition no_spow : spow_oracle := fun _ _ _ _ => Raise EOutside.
 Definition zi (z : Z) : C := (inject_Z z, 0).
 Definition cred (c : C) : C := (Qred (cre c), Qred (cim c)).
 
-Lemma c14_singular_refuted :
+(* the former defect, now a regression example: numpy's rank test flags [[3,3],[5,5]] (observed: rank 1), so the model of the
+   repaired __pow__ raises the singular-matrix error although np.linalg.inv would still hand back the huge matrix *)
+Definition numpy_rank_observed : rank_oracle := fun _ _ _ => true.
+Lemma c14_singular_witness_is_error :
   proper (Arr KInt [2; 2]%nat singular_witness) /\
   has_kernel_vector 2 singular_witness /\
-  (match py_binop true numpy_inv_observed no_spow Pow (Arr KInt [2; 2]%nat singular_witness) (Num KInt (zi (-1))) with
-   | Ret (Arr KFloat [2%nat; 2%nat] d) =>
-       map cred d = [ (2251799813685248 # 1, 0); (- (1351079888211149 # 1), 0);
-                      (- (2251799813685248 # 1), 0); (1351079888211149 # 1, 0) ]
-   | _ => False end) /\
+  py_binop true numpy_rank_observed numpy_inv_observed no_spow Pow (Arr KInt [2; 2]%nat singular_witness) (Num KInt (zi (-1)))
+    = Raise ESingular /\
+  py_binop true exact_rank_deficient exact_inv no_spow Pow (Arr KInt [2; 2]%nat singular_witness) (Num KFloat (zi (-2)))
+    = Raise ESingular /\
   ~ inv_sound numpy_inv_observed.
 Proof.
-  split; [split; [reflexivity | simpl; lia] |]. split; [| split].
+  split; [split; [reflexivity | simpl; lia] |]. split; [| split; [| split]].
   - exists [ (1, 0); (- (1), 0) ]. split; [reflexivity|]. split.
     + constructor. reflexivity.
     + unfold data_eq. simpl. repeat (constructor; [split; vm_compute; reflexivity |]). constructor.
+  - vm_compute. reflexivity.
   - vm_compute. reflexivity.
   - intro H. destruct (H KInt 2%nat singular_witness _ eq_refl) as [_ [H1 _]].
     inversion H1 as [|? ? ? ? [Hre _] _]. vm_compute in Hre. discriminate.
 Qed.
 
 Lemma c14_ex_products :
-  py_binop true exact_inv no_spow Mul (Arr KInt [2;2]%nat (map zi [1;2;3;4]%Z)) (Arr KInt [2]%nat (map zi [5;6]%Z))
+  py_binop true exact_rank_deficient exact_inv no_spow Mul (Arr KInt [2;2]%nat (map zi [1;2;3;4]%Z)) (Arr KInt [2]%nat (map zi [5;6]%Z))
     = Ret (Arr KInt [2]%nat [(17,0); (39,0)]) /\
-  py_binop true exact_inv no_spow Mul (Arr KInt [2]%nat (map zi [1;2]%Z)) (Arr KInt [2;2]%nat (map zi [1;2;3;4]%Z))
+  py_binop true exact_rank_deficient exact_inv no_spow Mul (Arr KInt [2]%nat (map zi [1;2]%Z)) (Arr KInt [2;2]%nat (map zi [1;2;3;4]%Z))
     = Ret (Arr KInt [2]%nat [(7,0); (10,0)]) /\
-  py_binop true exact_inv no_spow Mul (Arr KInt [2]%nat (map zi [1;2]%Z)) (Arr KInt [2]%nat (map zi [3;4]%Z))
+  py_binop true exact_rank_deficient exact_inv no_spow Mul (Arr KInt [2]%nat (map zi [1;2]%Z)) (Arr KInt [2]%nat (map zi [3;4]%Z))
     = Ret (Num KInt (11,0)) /\
-  py_binop true exact_inv no_spow Mul (Arr KInt [1;2]%nat (map zi [1;2]%Z)) (Arr KInt [2;1]%nat (map zi [3;4]%Z))
+  py_binop true exact_rank_deficient exact_inv no_spow Mul (Arr KInt [1;2]%nat (map zi [1;2]%Z)) (Arr KInt [2;1]%nat (map zi [3;4]%Z))
     = Ret (Num KInt (11,0)).
 Proof. vm_compute. repeat split; reflexivity. Qed.
 
 Lemma c14_ex_powers :
-  (match py_binop true exact_inv no_spow Pow (Arr KInt [2;2]%nat (map zi [1;2;3;4]%Z)) (Num KInt (zi (-1))) with
+  (match py_binop true exact_rank_deficient exact_inv no_spow Pow (Arr KInt [2;2]%nat (map zi [1;2;3;4]%Z)) (Num KInt (zi (-1))) with
    | Ret (Arr KFloat [2%nat; 2%nat] d) => map cred d = [(-2,0); (1,0); (3#2,0); (-1#2,0)]
    | _ => False end) /\
-  py_binop false exact_inv no_spow Pow (Arr KInt [2;2]%nat (map zi [1;2;3;4]%Z)) (Num KInt (zi (-1))) = Raise ENegPowDisabled /\
-  py_binop true exact_inv no_spow Pow (Arr KInt [2;2]%nat (map zi [1;2;2;4]%Z)) (Num KInt (zi (-1))) = Raise ESingular /\
-  py_binop true exact_inv no_spow Pow (Arr KInt [2;2]%nat (map zi [1;2;3;4]%Z)) (Num KFloat (2,0))
+  py_binop false exact_rank_deficient exact_inv no_spow Pow (Arr KInt [2;2]%nat (map zi [1;2;3;4]%Z)) (Num KInt (zi (-1))) = Raise ENegPowDisabled /\
+  py_binop true exact_rank_deficient exact_inv no_spow Pow (Arr KInt [2;2]%nat (map zi [1;2;2;4]%Z)) (Num KInt (zi (-1))) = Raise ESingular /\
+  py_binop true exact_rank_deficient exact_inv no_spow Pow (Arr KInt [2;2]%nat (map zi [1;2;3;4]%Z)) (Num KFloat (2,0))
     = Ret (Arr KInt [2;2]%nat [(7,0); (10,0); (15,0); (22,0)]) /\
-  py_binop true exact_inv no_spow Pow (Arr KInt [2;2]%nat (map zi [1;2;3;4]%Z)) (Num KFloat (1#2,0)) = Raise ENonIntPow /\
-  py_binop true exact_inv no_spow Pow (Arr KInt [2;2]%nat (map zi [1;2;3;4]%Z)) (Num KComplex (2,0)) = Raise ENonIntPow /\
-  py_binop true exact_inv no_spow Pow (Arr KInt [2;3]%nat (map zi [1;2;3;4;5;6]%Z)) (Num KInt (zi 2)) = Raise EPowNonSquare /\
-  py_binop true exact_inv no_spow Pow (Arr KInt [2]%nat (map zi [1;2]%Z)) (Num KInt (zi 2)) = Raise EPowShape.
+  py_binop true exact_rank_deficient exact_inv no_spow Pow (Arr KInt [2;2]%nat (map zi [1;2;3;4]%Z)) (Num KFloat (1#2,0)) = Raise ENonIntPow /\
+  py_binop true exact_rank_deficient exact_inv no_spow Pow (Arr KInt [2;2]%nat (map zi [1;2;3;4]%Z)) (Num KComplex (2,0)) = Raise ENonIntPow /\
+  py_binop true exact_rank_deficient exact_inv no_spow Pow (Arr KInt [2;3]%nat (map zi [1;2;3;4;5;6]%Z)) (Num KInt (zi 2)) = Raise EPowNonSquare /\
+  py_binop true exact_rank_deficient exact_inv no_spow Pow (Arr KInt [2]%nat (map zi [1;2]%Z)) (Num KInt (zi 2)) = Raise EPowShape.
 Proof. vm_compute. repeat split; reflexivity. Qed.
 
 Lemma c14_ex_errors :
-  py_binop true exact_inv no_spow Add (Arr KInt [2]%nat (map zi [1;2]%Z)) (Arr KInt [3]%nat (map zi [1;2;3]%Z)) = Raise EAddShape /\
-  py_binop true exact_inv no_spow Add (Arr KInt [2]%nat (map zi [1;2]%Z)) (Num KInt (zi 1)) = Raise EAddScalar /\
-  py_binop true exact_inv no_spow Sub (Num KInt (zi 1)) (Arr KInt [2]%nat (map zi [1;2]%Z)) = Raise EAddScalar /\
-  py_binop true exact_inv no_spow Div (Arr KInt [2]%nat (map zi [1;2]%Z)) (Arr KInt [2]%nat (map zi [1;2]%Z)) = Raise EDivArray /\
-  py_binop true exact_inv no_spow Div (Num KInt (zi 2)) (Arr KInt [2]%nat (map zi [1;2]%Z)) = Raise ERDivArray /\
-  py_binop true exact_inv no_spow Pow (Num KInt (zi 2)) (Arr KInt [2]%nat (map zi [1;2]%Z)) = Raise ERPowArray /\
-  py_binop true exact_inv no_spow Add (Num KFloat (zi 0)) (Arr KInt [2]%nat (map zi [1;2]%Z))
+  py_binop true exact_rank_deficient exact_inv no_spow Add (Arr KInt [2]%nat (map zi [1;2]%Z)) (Arr KInt [3]%nat (map zi [1;2;3]%Z)) = Raise EAddShape /\
+  py_binop true exact_rank_deficient exact_inv no_spow Add (Arr KInt [2]%nat (map zi [1;2]%Z)) (Num KInt (zi 1)) = Raise EAddScalar /\
+  py_binop true exact_rank_deficient exact_inv no_spow Sub (Num KInt (zi 1)) (Arr KInt [2]%nat (map zi [1;2]%Z)) = Raise EAddScalar /\
+  py_binop true exact_rank_deficient exact_inv no_spow Div (Arr KInt [2]%nat (map zi [1;2]%Z)) (Arr KInt [2]%nat (map zi [1;2]%Z)) = Raise EDivArray /\
+  py_binop true exact_rank_deficient exact_inv no_spow Div (Num KInt (zi 2)) (Arr KInt [2]%nat (map zi [1;2]%Z)) = Raise ERDivArray /\
+  py_binop true exact_rank_deficient exact_inv no_spow Pow (Num KInt (zi 2)) (Arr KInt [2]%nat (map zi [1;2]%Z)) = Raise ERPowArray /\
+  py_binop true exact_rank_deficient exact_inv no_spow Add (Num KFloat (zi 0)) (Arr KInt [2]%nat (map zi [1;2]%Z))
     = Ret (Arr KFloat [2]%nat (map zi [1;2]%Z)).
 Proof. vm_compute. repeat split; reflexivity. Qed.
 
@@ -909,10 +930,10 @@ Lemma c14_ex_formulas :
   let v12 := EArr [EVal (Num KFloat (zi 1)); EVal (Num KFloat (zi 2))] in
   let v34 := EArr [EVal (Num KFloat (zi 3)); EVal (Num KFloat (zi 4))] in
   let v56 := EArr [EVal (Num KFloat (zi 5)); EVal (Num KFloat (zi 6))] in
-  eval_expr true exact_inv no_spow (EProd v12 [(true, v34); (true, v56)]) = Raise ETripleVec /\
-  eval_expr true exact_inv no_spow (EProd (EParen (EProd v12 [(true, v34)])) [(true, v56)])
+  eval_expr true exact_rank_deficient exact_inv no_spow (EProd v12 [(true, v34); (true, v56)]) = Raise ETripleVec /\
+  eval_expr true exact_rank_deficient exact_inv no_spow (EProd (EParen (EProd v12 [(true, v34)])) [(true, v56)])
     = Ret (Arr KFloat [2]%nat [(55,0); (66,0)]) /\
-  eval_expr true exact_inv no_spow (EArr [v12; EArr [EVal (Num KFloat (zi 3))]]) = Raise ERagged.
+  eval_expr true exact_rank_deficient exact_inv no_spow (EArr [v12; EArr [EVal (Num KFloat (zi 3))]]) = Raise ERagged.
 Proof. vm_compute. repeat split; reflexivity. Qed.
 
 (* ------------------------------------------------------------------ formula trees *)
@@ -969,11 +990,12 @@ Proof. intros [k c | k sh d] H; simpl in *; auto. rewrite map_length. exact H. Q
 
 Section Trees.
   Variable negpow : bool.
+  Variable rk : rank_oracle.
   Variable inv : inv_oracle.
   Variable spow : spow_oracle.
   Hypothesis spow_num : spow_numeric spow.
 
-  Local Notation bop := (py_binop negpow inv spow).
+  Local Notation bop := (py_binop negpow rk inv spow).
 
   Lemma pow_proper : forall a b r, proper a -> proper b -> bop Pow a b = Ret r -> proper r.
   Proof.
@@ -985,8 +1007,8 @@ Section Trees.
 
   Lemma power_loop_sound : forall rest res r,
     proper res -> Forall (opt_pred proper) rest ->
-    power_loop negpow inv spow rest res = Ret r ->
-    la_power_loop negpow inv spow rest res r /\ proper r.
+    power_loop negpow rk inv spow rest res = Ret r ->
+    la_power_loop negpow rk inv spow rest res r /\ proper r.
   Proof.
     induction rest as [|[w|] rest IH]; intros res r Hres Hrest H; simpl in H.
     - inv_ret H. split; [constructor | exact Hres].
@@ -1000,8 +1022,8 @@ Section Trees.
   Qed.
 
   Lemma eval_power_sound : forall items r,
-    Forall (opt_pred proper) items -> eval_power negpow inv spow items = Ret r ->
-    la_power negpow inv spow items r /\ proper r.
+    Forall (opt_pred proper) items -> eval_power negpow rk inv spow items = Ret r ->
+    la_power negpow rk inv spow items r /\ proper r.
   Proof.
     intros items r Hi H. unfold eval_power in H. unfold la_power.
     apply Forall_rev in Hi. destruct (rev items) as [|[last|] rest]; try discriminate.
@@ -1010,8 +1032,8 @@ Section Trees.
   Qed.
 
   Lemma eval_negation_sound : forall k v r,
-    proper v -> eval_negation negpow inv spow k v = Ret r ->
-    la_value negpow inv spow Mul v (Num KInt (if Nat.even k then c1 else cneg c1)) r /\ proper r.
+    proper v -> eval_negation negpow rk inv spow k v = Ret r ->
+    la_value negpow rk inv spow Mul v (Num KInt (if Nat.even k then c1 else cneg c1)) r /\ proper r.
   Proof.
     intros k v r Hv H. unfold eval_negation in H. split.
     - apply operator_sound; simpl; auto.
@@ -1035,18 +1057,18 @@ Section Trees.
   Qed.
 
   Definition tree_ok (e : expr) : Prop :=
-    forall r, wf_expr e -> eval_expr negpow inv spow e = Ret r -> la_eval negpow inv spow e r /\ proper r.
+    forall r, wf_expr e -> eval_expr negpow rk inv spow e = Ret r -> la_eval negpow rk inv spow e r /\ proper r.
 
   Lemma ops_sound : forall rest vs,
     Forall (fun p => tree_ok (snd p)) rest -> Forall (fun p => wf_expr (snd p)) rest ->
-    mapM (op_item (eval_expr negpow inv spow)) rest = inl vs ->
-    Forall2 (fun p q => fst p = fst q /\ la_eval negpow inv spow (snd p) (snd q)) rest vs /\
+    mapM (op_item (eval_expr negpow rk inv spow)) rest = inl vs ->
+    Forall2 (fun p q => fst p = fst q /\ la_eval negpow rk inv spow (snd p) (snd q)) rest vs /\
     Forall (fun q => proper (snd q)) vs.
   Proof.
     intros rest vs Hok Hwf H. apply mapM_inl in H.
     induction H as [|[o x] [o' v] rest vs Hx H IH]; [split; constructor|].
     inversion Hok as [|? ? Hk Hok']; subst. inversion Hwf as [|? ? Hw Hwf']; subst. simpl in *.
-    unfold op_item in Hx. simpl in Hx. destruct (eval_expr negpow inv spow x) as [v0|] eqn:E; [|discriminate].
+    unfold op_item in Hx. simpl in Hx. destruct (eval_expr negpow rk inv spow x) as [v0|] eqn:E; [|discriminate].
     injection Hx as <- <-. destruct (Hk v0 Hw ltac:(first [exact E | reflexivity])) as [Hl Hp]. destruct (IH Hok' Hwf') as [H1 H2].
     split; constructor; auto.
   Qed.
@@ -1058,46 +1080,46 @@ Section Trees.
     apply expr_ind'; unfold tree_ok.
     - intros v r Hwf H. simpl in H. inv_ret H. inversion Hwf; subst. split; [constructor | assumption].
     - intros items IH r Hwf H. inversion Hwf as [| | |? Hlen Hw| | |]; subst. simpl in H.
-      destruct (mapM (arg_item (eval_expr negpow inv spow)) items) as [vs|] eqn:E; [|discriminate].
+      destruct (mapM (arg_item (eval_expr negpow rk inv spow)) items) as [vs|] eqn:E; [|discriminate].
       apply mapM_inl in E.
-      assert (Forall2 (la_eval negpow inv spow) items vs /\ Forall proper vs) as [F2 Fp].
+      assert (Forall2 (la_eval negpow rk inv spow) items vs /\ Forall proper vs) as [F2 Fp].
       { clear H Hlen Hwf. induction E as [|x v items vs Hx E IHE]; [split; constructor|].
         inversion IH as [|? ? Hk IH']; subst. inversion Hw as [|? ? Hwx Hw']; subst.
-        unfold arg_item, lift in Hx. destruct (eval_expr negpow inv spow x) as [v0|] eqn:Ex; [|discriminate].
+        unfold arg_item, lift in Hx. destruct (eval_expr negpow rk inv spow x) as [v0|] eqn:Ex; [|discriminate].
         injection Hx as <-. destruct (Hk v0 Hwx ltac:(first [exact Ex | reflexivity])) as [Hl Hp]. destruct (IHE IH' Hw') as [H1 H2].
         split; constructor; auto. }
       split; [econstructor; eauto|].
       eapply eval_array_proper; [| exact Fp | exact H].
       rewrite <- (Forall2_len _ _ _ F2). exact Hlen.
     - intros k e IH r Hwf H. inversion Hwf; subst. simpl in H.
-      destruct (eval_expr negpow inv spow e) as [v|] eqn:E; simpl in H; [|discriminate].
+      destruct (eval_expr negpow rk inv spow e) as [v|] eqn:E; simpl in H; [|discriminate].
       destruct (IH v H1 ltac:(first [exact E | reflexivity])) as [Hl Hp]. destruct (eval_negation_sound k v r Hp H) as [Hv Hr].
       split; [econstructor; eauto | exact Hr].
     - intros items IH r Hwf H. inversion Hwf as [| | | |? Hw| |]; subst. simpl in H.
-      destruct (mapM (pow_item (eval_expr negpow inv spow)) items) as [vs|] eqn:E; [|discriminate].
+      destruct (mapM (pow_item (eval_expr negpow rk inv spow)) items) as [vs|] eqn:E; [|discriminate].
       apply mapM_inl in E.
-      assert (Forall2 (opt_rel (la_eval negpow inv spow)) items vs /\ Forall (opt_pred proper) vs) as [F2 Fp].
+      assert (Forall2 (opt_rel (la_eval negpow rk inv spow)) items vs /\ Forall (opt_pred proper) vs) as [F2 Fp].
       { clear H Hwf. induction E as [|o w items vs Hx E IHE]; [split; constructor|].
         inversion IH as [|? ? Hk IH']; subst. inversion Hw as [|? ? Hwx Hw']; subst.
         destruct (IHE IH' Hw') as [H1 H2].
         destruct o as [x|]; simpl in Hx.
-        - destruct (eval_expr negpow inv spow x) as [v0|] eqn:Ex; [|discriminate]. injection Hx as <-.
+        - destruct (eval_expr negpow rk inv spow x) as [v0|] eqn:Ex; [|discriminate]. injection Hx as <-.
           inversion Hk as [|? Hkx]; subst. inversion Hwx as [|? Hwxx]; subst.
           destruct (Hkx v0 Hwxx ltac:(first [exact Ex | reflexivity])) as [Hl Hp].
           split; constructor; auto; constructor; auto.
         - injection Hx as <-. split; constructor; auto; constructor. }
       destruct (eval_power_sound vs r Fp H) as [Hl Hp]. split; [econstructor; eauto | exact Hp].
     - intros first rest IHf IHr r Hwf H. inversion Hwf as [| | | | |? ? Hwf1 Hwr|]; subst. simpl in H.
-      destruct (eval_expr negpow inv spow first) as [f|] eqn:E; simpl in H; [|discriminate].
-      destruct (mapM (op_item (eval_expr negpow inv spow)) rest) as [vs|] eqn:E'; [|discriminate].
+      destruct (eval_expr negpow rk inv spow first) as [f|] eqn:E; simpl in H; [|discriminate].
+      destruct (mapM (op_item (eval_expr negpow rk inv spow)) rest) as [vs|] eqn:E'; [|discriminate].
       destruct (IHf f Hwf1 ltac:(first [exact E | reflexivity])) as [Hlf Hpf]. destruct (ops_sound rest vs IHr Hwr E') as [F2 Fp].
-      destruct (eval_product_sound negpow inv spow vs f r Hpf Fp H) as [Hc Hp].
+      destruct (eval_product_sound negpow rk inv spow vs f r Hpf Fp H) as [Hc Hp].
       split; [econstructor; eauto | exact Hp].
     - intros first rest IHf IHr r Hwf H. inversion Hwf as [| | | | | |? ? Hwf1 Hwr]; subst. simpl in H.
-      destruct (eval_expr negpow inv spow first) as [f|] eqn:E; simpl in H; [|discriminate].
-      destruct (mapM (op_item (eval_expr negpow inv spow)) rest) as [vs|] eqn:E'; [|discriminate].
+      destruct (eval_expr negpow rk inv spow first) as [f|] eqn:E; simpl in H; [|discriminate].
+      destruct (mapM (op_item (eval_expr negpow rk inv spow)) rest) as [vs|] eqn:E'; [|discriminate].
       destruct (IHf f Hwf1 ltac:(first [exact E | reflexivity])) as [Hlf Hpf]. destruct (ops_sound rest vs IHr Hwr E') as [F2 Fp].
-      destruct (eval_sum_sound negpow inv spow vs f r Hpf Fp H) as [Hc Hp].
+      destruct (eval_sum_sound negpow rk inv spow vs f r Hpf Fp H) as [Hc Hp].
       split; [econstructor; eauto | exact Hp].
     - intros e IH r Hwf H. inversion Hwf; subst. simpl in H. destruct (IH r H1 H) as [Hl Hp].
       split; [constructor; exact Hl | exact Hp].
@@ -1106,13 +1128,13 @@ End Trees.
 
 (* ------------------------------------------------------------------ single-element arrays (outside the property's quantifier) *)
 (* as right operand of *, / and ^ a one-element array of any shape acts as the number it holds *)
-Lemma numberlike_acts_as_scalar : forall negpow inv spow op ks shs ds ko sho d2,
+Lemma numberlike_acts_as_scalar : forall negpow rk inv spow op ks shs ds ko sho d2,
   op = Mul \/ op = Div \/ op = Pow ->
   proper (Arr ks shs ds) -> sprod sho = 1%nat ->
-  py_binop negpow inv spow op (Arr ks shs ds) (Arr ko sho d2)
-  = py_binop negpow inv spow op (Arr ks shs ds) (Num ko (item d2)).
+  py_binop negpow rk inv spow op (Arr ks shs ds) (Arr ko sho d2)
+  = py_binop negpow rk inv spow op (Arr ks shs ds) (Num ko (item d2)).
 Proof.
-  intros negpow inv spow op ks shs ds ko sho d2 Hop [Hl Hp] Ho.
+  intros negpow rk inv spow op ks shs ds ko sho d2 Hop [Hl Hp] Ho.
   pose proof (proper_not_numberlike _ Hp) as Hn.
   destruct Hop as [-> | [-> | ->]]; simpl.
   - unfold mul_arr. rewrite Hn, Ho. reflexivity.
